@@ -42,6 +42,8 @@ def main():
                         sub = sub.lstrip("./")
                 shutil.copy(os.path.join(src, f), os.path.join(wt, sub))
                 gotests.append((sub or ".", f))
+            elif os.path.isdir(os.path.join(src, f)):
+                shutil.copytree(os.path.join(src, f), os.path.join(wt, f), dirs_exist_ok=True)
             else:
                 shutil.copy(os.path.join(src, f), wt)
         def run_demo():
@@ -94,7 +96,10 @@ def main():
         dst = os.path.join(ROOT, "seeded", name)
         os.makedirs(dst, exist_ok=True)
         for f in os.listdir(src):
-            shutil.copy(os.path.join(src, f), dst)
+            if os.path.isdir(os.path.join(src, f)):
+                shutil.copytree(os.path.join(src, f), os.path.join(dst, f), dirs_exist_ok=True)
+            else:
+                shutil.copy(os.path.join(src, f), dst)
         meta.update({"confirmed": {k: res.get(k) for k in ("patch_applies", "builds", "go_tests_pass", "scripts_pass", "demo_differs")},
                      "what_i_ran": "tools/seedeval.py: patch applied to a scratch worktree of /repo; go build ./...; go test -vet=off -count=1 ./... "
                                    "(TestServeBackground/http port tests ignored); go run . test tests; demo before/after; VERIF_REPO=<scratch> ./check <id> --tier quick",
